@@ -462,6 +462,28 @@ def call_ext(I: Any, name: str, args: List[Term], kwargs: Dict[str, Term], st: A
                 # OR (or XOR) of distinct powers of two taken from distinct members is their sum: no two share a bit
                 return app("sum", [("map", body_, it_)])
         return I.external_call(name, args, kwargs, st, ctx, node, awaited, opaque=True)
+    if name == "itertools.compress" and len(args) == 2 and not kwargs:
+        data_, sels_ = I.iter_items(args[0], st, ctx, node), I.iter_items(args[1], st, ctx, node)
+        if data_ is not None and sels_ is not None:
+            from .interp import HeapObj, NeedSplit, decided_by
+            kept_ = []
+            for x_, s_ in zip(data_, sels_):
+                t_ = I.truth(s_, st)
+                d_ = bool(t_[1]) if is_c(t_) else decided_by(st.pc, t_)
+                if d_ is None:
+                    raise NeedSplit(t_)        # the statement is re-executed once per truth value of the selector
+                if d_:
+                    kept_.append(x_)
+            return st.alloc(HeapObj("list", None, {"$born": c(getattr(I, "cur_serial", None))}, kept_, False, "iter:compress", True))
+    if name == "itertools.accumulate" and len(args) == 1 and not kwargs:
+        its_ = I.iter_items(args[0], st, ctx, node)
+        if its_ is not None and (all(_textlike(x_) for x_ in its_) or all(is_int_term(x_) for x_ in its_)):
+            from .interp import HeapObj
+            run_: List[Term] = []
+            for x_ in its_:
+                run_.append(x_ if not run_ else (T.concat(T.to_seq(run_[-1]), T.to_seq(x_)) if _textlike(x_) else arith("add", run_[-1], x_)))
+            if not any(is_top(x_) for x_ in run_):
+                return st.alloc(HeapObj("list", None, {"$born": c(getattr(I, "cur_serial", None))}, run_, False, "iter:accumulate", True))
     if name == "builtins.zip" and len(args) >= 2 and not kwargs:
         lists = [I.iter_items(a, st, ctx, node) for a in args]
         if all(l is not None for l in lists):
@@ -491,6 +513,11 @@ def call_ext(I: Any, name: str, args: List[Term], kwargs: Dict[str, Term], st: A
                 if seq is not None and not is_top(rest) and type(args[1][1]) is (bytes if seq[1] in ("b", "raw") else str):
                     ho.fields["pos"] = c(None)
                     return ("chunks", seq, f[2][0][1])
+    if name == "builtins.iter" and len(args) == 1 and not kwargs and _textlike(args[0]) and T.to_seq(args[0]) is not None and T.to_seq(args[0])[1] in ("b", "raw"):
+        # an iterator over the bytes of a byte string: a read position over that buffer (only `bytes(islice(it, n))`
+        # chunk reading is modelled, see Interp._while_reads_chunks; any other use stops the analysis)
+        from .interp import HeapObj
+        return st.alloc(HeapObj("obj", None, {"buf": args[0], "pos": c(0)}, [], False, "byteiter", True))
     if name == "builtins.next" and 1 <= len(args) <= 2 and not kwargs:
         src = args[0]
         default = args[1] if len(args) == 2 else None
